@@ -17,22 +17,25 @@ def jsonOfDesc (d : Desc) : Json :=
         ("components", jarr (d.comps.map fun c =>
           jobj [("stage", jnat c.stage), ("name", jchars c.name), ("body", jsonOfFields c.body)]))]
 
+/-- the description with the user's variables patched in: `"users": [file, …]` (several variable files, layered
+first to last by `layerUserFiles`) or `"user": file | null` (one file) -/
 def patched (j : Json) : Except String Desc := do
   let d ← descOfJson (← j.getObjVal? "desc")
-  match j.getObjVal? "user" with
-  | .ok Json.null => pure d
-  | .ok u => do pure (patchUser d (← userOfJson u) (← getNat j "nstages"))
-  | .error _ => pure d
+  match j.getObjVal? "users" with
+  | .ok (Json.arr fs) => do
+    let files ← fs.toList.mapM userOfJson
+    pure (patchUser d (layerUserFiles files) (← getNat j "nstages"))
+  | _ =>
+    match j.getObjVal? "user" with
+    | .ok Json.null => pure d
+    | .ok u => do pure (patchUser d (← userOfJson u) (← getNat j "nstages"))
+    | .error _ => pure d
 
 def handle (j : Json) : Except String Json := do
   let op ← getStr j "op"
   match op with
   | "resolve" =>
-    let d ← descOfJson (← j.getObjVal? "desc")
-    let d ← match j.getObjVal? "user" with
-      | .ok Json.null => pure d
-      | .ok u => do pure (patchUser d (← userOfJson u) (← getNat j "nstages"))
-      | .error _ => pure d
+    let d ← patched j
     let P ← getChars j "platform"
     let i ← getNat j "stage"
     let n ← getChars j "name"
@@ -60,6 +63,12 @@ def handle (j : Json) : Except String Json := do
     return match flatten fuel d P prim inject with
       | .ok fd => jobj [("result", jobj [("ok", jsonOfDesc fd)]), ("skeleton", jsonOfDesc (flattenRaw d P))]
       | .error e => jobj [("result", jsonOfResult (.error e)), ("skeleton", jsonOfDesc (flattenRaw d P))]
+  | "layerUsers" =>
+    -- FlowIRExperimentConfiguration.layer_many_variable_files
+    let files ← (← getArr j "users").mapM userOfJson
+    let u := layerUserFiles files
+    return jobj [("ok", jobj [("global", jsonOfFields u.global),
+                              ("stages", jobj (u.stages.map fun (i, v) => (toString i, jsonOfFields v)))])]
   | "interp" =>
     let ctx ← fieldsOfJson (← j.getObjVal? "ctx")
     let s ← getChars j "s"
